@@ -276,14 +276,28 @@ def normalize_user_regions(
         for reference in bam_references:
             regions[reference].append((0, None))
     else:
-        bam_references = set(bam_references)
+        requested: Dict[str, List[Tuple[int, Optional[int]]]] = defaultdict(list)
         for region_spec in user_regions:
             region = Region.parse(region_spec)
-            if region.chromosome not in bam_references:
+            if region.chromosome not in set(bam_references):
                 raise ValueError(
                     "Requested reference '{region.chromosome}' not found in input BAM/CRAM"
                 )
-            regions[region.chromosome].append((region.start, region.end))
+            requested[region.chromosome].append((region.start, region.end))
+        # Process chromosomes in the order of the BAM header and each chromosome's regions
+        # sorted and merged, such that the output keeps the order of the input and no
+        # alignment (or VCF record) is fetched twice because regions overlap
+        for reference in bam_references:
+            if reference not in requested:
+                continue
+            for start, end in sorted(requested[reference], key=lambda r: r[0]):
+                if regions[reference]:
+                    prev_start, prev_end = regions[reference][-1]
+                    if prev_end is None or start <= prev_end:
+                        if prev_end is not None and (end is None or end > prev_end):
+                            regions[reference][-1] = (prev_start, end)
+                        continue
+                regions[reference].append((start, end))
     return regions
 
 
@@ -614,9 +628,13 @@ def run_haplotag(
                 read_to_haplotype = None
 
             assert not include_unmapped or len(regions) == 1
+            previous_end = None
             for start, end in regions:
                 logger.debug("Working on %s:%s-%s", chrom, start, end)
                 for alignment in bam_reader.fetch(contig=chrom, start=start, stop=end):
+                    if previous_end is not None and alignment.reference_start < previous_end:
+                        # overlaps the previous region as well and has been written already
+                        continue
                     n_alignments += 1
                     haplotype_name = "none"
                     phaseset = "none"
@@ -662,6 +680,7 @@ def run_haplotag(
 
                     if n_alignments % 100_000 == 0:
                         logger.debug(f"Processed {n_alignments} alignment records.")
+                previous_end = end
         if include_unmapped:
             logger.debug("Copying unmapped reads to output")
             for alignment in bam_reader.fetch(contig="*"):
